@@ -246,3 +246,9 @@ def r14_7(ck, F):
 def run(ck, F):
     for r in (r14_1, r14_2, r14_3, r14_4, r14_5, r14_6, r14_7):
         ck.run_rule(r)
+    # shared clauses: observable collections report lag through rch::broadcast (marker before re-admission, surfaced by the
+    # receiver); a subscription to a mirror must take snapshot and event stream in one step
+    import c16
+    import c13
+    for r in (c16.r16_2, c16.r16_3, c13.r13_4):
+        ck.run_rule(r)
